@@ -84,6 +84,8 @@ class ProblemCase(Case):
             d["variables"]["mask"] = list(mask)
         if options == "empty":
             d["optimizer"]["options"] = {}
+        elif options == "own":   # the options carry the back-end's own limit: the configured max_iterations still wins
+            d["optimizer"]["options"] = {"maxfun" if method == "tnc" else "maxiter": 200}
         elif options == "dict":
             d["optimizer"]["options"] = {"ftol": 1e-3} if method != "differential_evolution" else {"seed": 3}
         if self.nkinds:
@@ -344,7 +346,7 @@ def build_cases(tier):
         add(method=m, N=3, mask=(False, True, True), nkinds=("upper",), lkinds=("lower",), lin_zero=[[True, False, False]])
     # options forwarding
     for m in ("slsqp", "tnc", "nelder-mead", "l-bfgs-b", "cobyla", "differential_evolution", "bfgs"):
-        for o in ("none", "empty", "dict"):
+        for o in ("none", "empty", "dict", "own"):
             add(method=m, options=o, var_bounds="none" if m in ("bfgs", "cobyla") else "both")
     # unsupported kinds
     for m in ("l-bfgs-b", "nelder-mead", "bfgs", "powell"):
